@@ -1,0 +1,21 @@
+//go:build verif
+
+package lnd
+
+import (
+	"context"
+
+	"github.com/elementsproject/peerswap/onchain"
+	"github.com/lightningnetwork/lnd/lnrpc"
+	"github.com/lightningnetwork/lnd/lnrpc/walletrpc"
+)
+
+// This file is compiled only with the "verif" build tag.
+
+// VerifNewWalletClient returns a client that carries exactly what the
+// swap.Wallet methods of lnd_wallet.go use (the lightning and wallet-kit rpc
+// clients and the onchain helper), so that an external harness can run them
+// against fakes of these two rpc interfaces.
+func VerifNewWalletClient(ctx context.Context, ln lnrpc.LightningClient, wk walletrpc.WalletKitClient, chain *onchain.BitcoinOnChain) *Client {
+	return &Client{lndClient: ln, walletClient: wk, bitcoinOnChain: chain, ctx: ctx}
+}
